@@ -1,11 +1,13 @@
 #!/bin/bash
 # re-run every seeded change against the quick check of its property; prints one line per change (expected: rc=1)
-cd /verif
+V="$(cd "$(dirname "$0")/.." && pwd)"
+cd "$V"
+if [ -n "${VP_RUN_REPO:-}" ]; then export VERIF_REPO="$VP_RUN_REPO"; sed -i "s#=> /repo#=> $VERIF_REPO#" go/go.mod; bin/check setup >/dev/null 2>&1; fi
 for d in seeded/*/; do
   id=$(basename "$d")
   prop=$(python3 -c "import json,sys;print(json.load(open('$d/meta.json')).get('property','?'))" 2>/dev/null)
   [ -f "$d/patch.diff" ] || { echo "$id no-patch"; continue; }
-  out=$(tools/trymutant.sh "/verif/$d/patch.diff" "$prop" 2>&1)
+  out=$(tools/trymutant.sh "$V/$d/patch.diff" "$prop" 2>&1)
   rc=$(echo "$out" | grep -o "rc=[0-9]*" | head -1)
   found=$(echo "$out" | grep -c "^VIOLATION" )
   nof=$(echo "$out" | grep -c "no-failing-input-found")
